@@ -28,15 +28,16 @@
 (* link[p] separates the manager's view from what Kademlia has been told:  *)
 (*   down, dialing, estp (established, event not yet delivered), up,       *)
 (*   closedp (closed, ConnectionClosed not yet delivered),                 *)
-(*   limbo (known finding of C05 "outbound-established-rejected-by-limit": *)
-(*   the negotiated connection is refused by the outgoing limit and the    *)
-(*   manager reports nothing, the dial never gets an outcome).             *)
+(*   limbo (only with the seeded mutation Mut = "limit_reject_silent", the *)
+(*   behaviour before commit 6dd408e of /repo: the negotiated connection   *)
+(*   is refused by the outgoing limit and the manager reports nothing;     *)
+(*   since that commit the refusal is a DialFailure, i.e. DialFail).       *)
 (*                                                                         *)
 (* Known-defect paths set a tag in kf (as in ConnMgrMC); the invariants    *)
 (* are stated for behaviours that took none of them, and the `Fixed`       *)
 (* constant models the repaired code.                                      *)
 (***************************************************************************)
-EXTENDS KadOps, FiniteSetsExt
+EXTENDS KadOps, FiniteSetsExt, Json
 
 CONSTANTS Peers,      \* target peers, e.g. {"p1","p2","p3"}
           Qs,         \* query ids the user may issue, e.g. {1}
@@ -65,7 +66,7 @@ VARIABLES role,    \* peer -> role
 vars == <<role, link, redial, pctx, pdials, pacts, osub, ex, eng, qc, mon, kf>>
 
 None == 0
-AllTags == {"put-target-error-ignored", "outbound-established-rejected-by-limit", "est-open-substream-err-unreported"}
+AllTags == {"put-target-error-ignored", "est-open-substream-err-unreported"}
 NoFixed == {}
 AllRoles == {"any", "healthy", "undialable", "noaddr", "silent", "nokad", "dropafter"}
 AnyOnly == {"any"}
@@ -225,15 +226,14 @@ DialFail(p) ==
   /\ eng' = IF Mut = "dialfail_no_report" THEN eng ELSE RegFailSet(eng, {a.q : a \in pdials[p]}, p)
   /\ UNCHANGED <<role, redial, pctx, pacts, osub, ex, qc, mon, kf>>
 
-\* C05 known finding: two dials in flight, the outgoing limit is reached by the first connection,
-\* the second negotiated connection is rejected and the manager reports nothing
+\* seeded mutation (the manager before commit 6dd408e): two dials in flight, the outgoing limit is
+\* reached by the first connection, the second negotiated connection is rejected and nothing is reported
 DialRejectedByLimit(p) ==
-  /\ Limit /\ "outbound-established-rejected-by-limit" \notin Fixed
+  /\ Limit /\ Mut = "limit_reject_silent"
   /\ link[p] = "dialing" /\ CanEst(p)
   /\ \E o \in Peers \ {p} : link[o] \in {"estp", "up"}
   /\ link' = [link EXCEPT ![p] = "limbo"]
-  /\ kf' = kf \cup {"outbound-established-rejected-by-limit"}
-  /\ UNCHANGED <<role, redial, pctx, pdials, pacts, osub, ex, eng, qc, mon>>
+  /\ UNCHANGED <<role, redial, pctx, pdials, pacts, osub, ex, eng, qc, mon, kf>>
 
 \* the manager sees the connection; Kademlia's event is in flight
 DialOk(p) ==
@@ -402,4 +402,11 @@ OwedCovered == ~Tagged => \A o \in Owed : Carrier(o[1], o[2], IF eng[o[1]].ph = 
 OwedStrict == \A o \in Owed : Carrier(o[1], o[2], IF eng[o[1]].ph = "lookup" THEN "find" ELSE PK(o[1]))
 
 Shape == \A p \in Peers : (~pctx[p] => pacts[p] = {})
+
+-----------------------------------------------------------------------------
+(* Fault placements for the runs on real nodes: one line per initial state  *)
+(* (role of every target peer x operation kind x quorum).                   *)
+PlacementRoles == AllRoles \ {"any"}
+GenInit == Init /\ PrintT(<<"B", ToJson([roles |-> [p \in Peers |-> role[p]], ops |-> qc])>>)
+GenNext == FALSE /\ UNCHANGED vars
 =============================================================================
